@@ -1531,6 +1531,80 @@ def s_option_and_then(eng, frame, st, args, fj, depth, site):
             yield from call_closure(eng, s2, args[1], [payload], depth, site)
 
 
+INT_TYPES = ("u8", "u16", "u32", "u64", "u128", "usize", "i8", "i16", "i32", "i64", "i128", "isize")
+ORDERING = "std::cmp::Ordering"
+
+
+def s_ord_cmp(eng, frame, st, args, fj, depth, site):
+    """Ord::cmp on primitive integers: Less / Equal / Greater with the comparison as path condition"""
+    tys = [t.lstrip("&") for t in ((fj or {}).get("args") or [])]
+    if not tys or tys[0] not in INT_TYPES:
+        yield st, eng.opaque(st, "std::cmp::Ord::cmp", list(args))
+        return
+    a, b = _val(eng, st, args[0]), _val(eng, st, args[1])
+    for s1, lt in eng.split_truth(st, binop("Lt", a, b)):
+        if lt:
+            yield s1, ("agg", ORDERING, "Less", ())
+            continue
+        for s2, eq in eng.split_truth(s1, binop("Eq", a, b)):
+            yield s2, ("agg", ORDERING, "Equal" if eq else "Greater", ())
+
+
+def s_option_is_some_and(eng, frame, st, args, fj, depth, site):
+    for s2, tag, payload in split_option(eng, st, args[0]):
+        if tag == "None":
+            yield s2, FALSE
+        else:
+            yield from call_closure(eng, s2, args[1], [payload], depth, site)
+
+
+def s_option_is_none_or(eng, frame, st, args, fj, depth, site):
+    for s2, tag, payload in split_option(eng, st, args[0]):
+        if tag == "None":
+            yield s2, TRUE
+        else:
+            yield from call_closure(eng, s2, args[1], [payload], depth, site)
+
+
+def s_option_map_or(eng, frame, st, args, fj, depth, site):
+    for s2, tag, payload in split_option(eng, st, args[0]):
+        if tag == "None":
+            yield s2, args[1]
+        else:
+            yield from call_closure(eng, s2, args[2], [payload], depth, site)
+
+
+def s_option_map_or_else(eng, frame, st, args, fj, depth, site):
+    for s2, tag, payload in split_option(eng, st, args[0]):
+        if tag == "None":
+            yield from call_closure(eng, s2, args[1], [], depth, site)
+        else:
+            yield from call_closure(eng, s2, args[2], [payload], depth, site)
+
+
+def s_option_unwrap_or_else(eng, frame, st, args, fj, depth, site):
+    for s2, tag, payload in split_option(eng, st, args[0]):
+        if tag == "Some":
+            yield s2, payload
+        else:
+            yield from call_closure(eng, s2, args[1], [], depth, site)
+
+
+def s_option_filter(eng, frame, st, args, fj, depth, site):
+    for s2, tag, payload in split_option(eng, st, args[0]):
+        if tag == "None":
+            yield s2, NONE
+            continue
+        eng.frame_counter += 1
+        tmp = ("L", eng.frame_counter, -7)
+        s2.store[tmp] = payload
+        for s3, r in call_closure(eng, s2, args[1], [("ptr", tmp, ())], depth, site):
+            if r is PANIC:
+                continue
+            for s4, b in eng.split_truth(s3, r):
+                yield s4, (some(payload) if b else NONE)
+
+
 def s_option_flatten(eng, frame, st, args, fj, depth, site):
     # Option<Option<T>>::flatten: Some(inner) -> inner, None -> None
     for s2, tag, payload in split_option(eng, st, args[0]):
@@ -1553,6 +1627,14 @@ def s_bool_then(eng, frame, st, args, fj, depth, site):
                 yield s3, some(r)
 
 
+def s_vacant_insert(eng, frame, st, args, fj, depth, site):
+    """VacantEntry::insert(entry, v) -> &mut V: a reference to a slot that holds exactly v (what is read back through it is v)"""
+    eng.frame_counter += 1
+    tmp = ("L", eng.frame_counter, -9)
+    st.store[tmp] = args[1]
+    yield st, ("ptr", tmp, ())
+
+
 def s_entry_or_insert_with(eng, frame, st, args, fj, depth, site):
     """Entry::or_insert_with(entry, f): an occupied entry yields the stored value and f does not run; a vacant one runs f once
     and stores its result.  NOT a default summary: rules that want the closure followed pass it to their engine."""
@@ -1566,6 +1648,11 @@ def s_entry_or_insert_with(eng, frame, st, args, fj, depth, site):
         s3.events.append(("call", "Entry::Vacant::insert", (e, r), site, False, None))
         yield s3, eng.opaque(s3, "Entry::Vacant::insert", [e, r])
 
+
+SLOT_SUMMARIES = {
+    "std::collections::btree_map::VacantEntry::insert": s_vacant_insert,
+    "std::collections::hash_map::VacantEntry::insert": s_vacant_insert,
+}
 
 ENTRY_SUMMARIES = {
     "std::collections::btree_map::Entry::or_insert_with": s_entry_or_insert_with,
@@ -1761,6 +1848,13 @@ DEFAULT_SUMMARIES = {
     "std::option::Option::cloned": s_option_copied,
     "std::option::Option::unwrap": s_option_unwrap,
     "std::option::Option::and_then": s_option_and_then,
+    "std::option::Option::filter": s_option_filter,
+    "std::option::Option::is_some_and": s_option_is_some_and,
+    "std::option::Option::is_none_or": s_option_is_none_or,
+    "std::option::Option::map_or": s_option_map_or,
+    "std::option::Option::map_or_else": s_option_map_or_else,
+    "std::option::Option::unwrap_or_else": s_option_unwrap_or_else,
+    "std::cmp::Ord::cmp": s_ord_cmp,
     "std::option::Option::<std::option::Option<T>>::flatten": s_option_flatten,
     "std::option::Option::flatten": s_option_flatten,
     "core::bool::<impl bool>::then_some": s_bool_then_some,
